@@ -622,7 +622,7 @@ fn extract_columns(
                 .unwrap_or_default();
             let type_str = t
                 .get_type()
-                .map(|ty| ty.syntax().text().to_string())
+                .map(|ty| type_source_text(ty.syntax()))
                 .unwrap_or_default();
             let name_type = if type_str.is_empty() {
                 name.clone()
@@ -755,6 +755,20 @@ fn format_node_tokens(plan: &FormatPlan, node: &emmylua_parser::LuaSyntaxNode) -
         }
     }
     result.trim().to_string()
+}
+
+/// Source text of a doc type node including the parentheses the parser left outside of it.
+fn type_source_text(node: &emmylua_parser::LuaSyntaxNode) -> String {
+    let (leading, trailing) = surrounding_type_parens(node);
+    let mut text = String::new();
+    for token in &leading {
+        text.push_str(token.text());
+    }
+    text.push_str(&node.text().to_string());
+    for token in &trailing {
+        text.push_str(token.text());
+    }
+    text
 }
 
 /// The `(` tokens directly before and the matching `)` tokens directly after a doc type node
